@@ -36,6 +36,16 @@ TRUSTED_BASE = [
     "A-assert: Python not run with -O",
     "A-distinct: an object is not put again into an explicit-binding store while it is still inside it",
     "A-cap-int: capacity is a positive integer or float('inf')",
+    "K-interrupt (assumed, SimPy): a process waiting for a timer of r is resumed either after exactly r or, with "
+    "simpy.Interrupt raised at the yield, after some 0<=e<=r; A-no-nested-interrupt: a belt mover waiting for the "
+    "resume signal is not interrupted again (unchecked: the interruption planner is not under contract)",
+    "A-bookkeeping: the belt stores' dictionaries active_move_processes / active_delayed_interrupt_processes are "
+    "outside the modelled state (membership unconstrained; del/lookup assumed not to raise)",
+    "A-rearm: at ConveyorBelt.put/get of the continuous conveyor its one-shot events item_arrival_event, "
+    "put_events_available, get_events_available are untriggered (re-armed by behaviour(), which is not under contract)",
+    "A-foreign: 'foreign to a store' is a rigid property of an event identity fixed at allocation: events allocated by "
+    "a conveyor edge are foreign to its belt store, events allocated by the store are not",
+    "A-item-length: items put on the continuous conveyor have the conveyor's item_length",
     "ML-0 (paper): an invariant established by __init__ and preserved by every public method and every process "
     "segment from an arbitrary invariant state holds in every reachable state; relies on the frame obligation "
     "(no code outside a store class mutates its lists)",
@@ -220,9 +230,13 @@ def main():
             known_hits.append((hit, r, o))
             out_lines.append("KNOWN-FINDING: property=%s %s [chi=%s; verifier: %s inside chi; native witness %s still fails] :: %s"
                              % (prop, key, hit.get("chi", "always"), o.get("inside_chi"), hit.get("witness"), hit["text"]))
-        else:
+        elif any(o2.get("inside_chi") == "refuted" for _, o2 in failing):
             # the recorded history no longer fails natively but the obligation still does: not the known finding
-            violations.append((r, o))
+            violations.append(([x for x in failing if x[1].get("inside_chi") == "refuted"][0]))
+        else:
+            # witness gone and the verifier has not decided the obligation inside chi: undecided, not a violation
+            undecided.append((r["unit"], o["name"], "known-finding witness no longer fails; obligation not decided inside chi=%s"
+                              % hit.get("chi", "always")))
     replay_files = []
     for r, o in violations:
         path = write_replay(prop, r, o)
